@@ -161,8 +161,77 @@ def r3_one_binder(ctx, F):
     ctx.floor("C08.R3", "reads of named/*args/**kwargs of a call", n, 6, inventory=True)
 
 
+def r4_phase_order(ctx, F):
+    """duplicate detection in collect_slow relies on the order of its phases: a `**mapping` key that names a parameter is
+    a repeat exactly when the slot is already filled, so every positional source (explicit positionals, then `*sequence`)
+    and the explicit names must have been bound before the mapping is looked at; and the position/name clash test
+    must come after the `*sequence` has been spread"""
+    f = F.one(SPEC % "collect_slow")
+
+    def first(pat):
+        cs = [c for c in f.calls if c.bb not in f.cleanup and re.search(pat, c.name)]
+        return cs[0] if cs else None
+    pos, names, star, kw = (first(r"ArgumentsImpl::pos$"), first(r"ArgumentsImpl::names$"),
+                            first(r"ArgumentsImpl::args$"), first(r"ArgumentsImpl::kwargs$"))
+    if not all((pos, names, star, kw)):
+        ctx.bad("C08.R4", "phase-order:anchor", "anchor-missing: pos/names/args/kwargs accessors in collect_slow", fn=f)
+        return
+    order = [("positional arguments", pos), ("named arguments", names), ("*sequence", star), ("**mapping", kw)]
+    for (an, a), (bn, b) in zip(order, order[1:]):
+        ok = b.bb in f.after(a.bb) and a.bb not in f.after(b.bb)
+        ctx.check(ok, "C08.R4", "phase-order:%s<%s" % (an, bn), "%s are bound before %s" % (an, bn),
+                  "collect_slow looks at the %s before the %s are bound: a parameter filled from both is no longer "
+                  "reported as repeated (the later one silently wins)" % (bn, an), fn=f, line=b.line)
+    # the position/name clash test (a Gt/Lt comparison feeding RepeatedArg) comes after the *sequence loop
+    rep = [st for st in f.stmts if st.kind.endswith("FunctionError::RepeatedArg") and st.bb not in f.cleanup]
+    clash = [st for st in rep if st.bb not in f.after(kw.bb)]
+    ctx.check(bool(clash) and all(st.bb in f.after(star.bb) for st in clash), "C08.R4", "phase-order:clash-test-after-*sequence",
+              "the position/name clash test follows the spreading of *sequence",
+              "the position/name clash test of collect_slow no longer follows the *sequence loop (or is gone)", fn=f)
+
+
+def r5_call_site_layout(ctx, F):
+    """a compiled call keeps its positional arguments and the values of its named arguments in ONE vector (pos_named),
+    positional first; the split is `len - names.len()`. Appending a positional after a name has been recorded shifts
+    the split (named values are consumed as positionals). So: only the reviewed builders push onto pos_named, and
+    push_pos is applied only to a value built with Default::default() in the same function (no names yet)."""
+    from kern import forward_locals, locals_in
+    writers = set()
+    for f in F.fns.values():
+        if f.crate != "starlark":
+            continue
+        refs = [st.lhs_local for st in f.stmts if "ArgsCompiledValue::pos_named}" in st.text() and st.kind == "refmut"]
+        if not refs:
+            continue
+        t = forward_locals(f, refs, pass_calls=re.compile(r"DerefMut>::deref_mut$"))
+        if any(re.search(r"Vec::<T, A>::(push|insert|extend\w*|append)$", c.name) and
+               any(x in t for x in locals_in(c.args[0])) for c in f.calls if c.bb not in f.cleanup):
+            writers.add(short_fn(top_fn(F, f).qpath))
+    allowed = {"ArgsCompiledValue::push_pos", "Compiler::args"}
+    ctx.check(bool(writers) and writers <= allowed, "C08.R5", "pos_named-writers",
+              "pos_named grows only in %s" % sorted(allowed),
+              "%s append(s) to ArgsCompiledValue.pos_named: the positional/named split of a compiled call is `len - "
+              "names.len()`, an append after names were recorded turns named values into positionals"
+              % sorted(writers - allowed))
+    n = 0
+    for f, c in callers(F, r"eval::compiler::args::ArgsCompiledValue::push_pos$"):
+        n += 1
+        os_ = origins(f, c.args[0], pass_calls=None)
+        fresh = any(o[0] == "call" and re.search(r"ArgsCompiledValue as std::default::Default>::default$|"
+                                                 r"Default>::default$", o[1].name) for o in os_)
+        foreign = any(o[0] == "param" for o in os_)
+        ctx.check(fresh and not foreign, "C08.R5", "push_pos-on-fresh-args:" + short_fn(top_fn(F, f).qpath),
+                  "push_pos is applied to a freshly defaulted ArgsCompiledValue (no named arguments yet)",
+                  "`%s` calls push_pos on an ArgsCompiledValue it did not create empty: if the call has named arguments "
+                  "the new positional lands behind their values and the arguments are bound to the wrong parameters"
+                  % short_fn(top_fn(F, f).qpath), fn=f, line=c.line)
+    ctx.floor("C08.R5", "push_pos call sites", n, 1)
+
+
 def run(ctx):
     F = ctx.facts("core")
+    r4_phase_order(ctx, F)
+    r5_call_site_layout(ctx, F)
     r1_fast_path_guard(ctx, F)
     r2_failure_exits(ctx, F)
     r3_one_binder(ctx, F)
